@@ -16,11 +16,12 @@ def fix(cfg):
     for c in cfg["rc"]:
         cid = c["id"] | (0x80000000 if c["off"] else 0)
         rp.append([cid, c["type"], [val32(m) for m in c["m"]], c["n"]])
-    sid, gen, cyc = cfg["sync"]
+    sid, gen, cyc = cfg["sync"][:3]
+    hb = cfg["sync"][3] if len(cfg["sync"]) > 3 else 0
     objs = []
     for (name, idx, flags, size), v in zip(OBJ, cfg["v"]):
         objs.append([idx, 0, flags, {1: 0, 2: 1, 4: 2}[size]] + list(v))
-    return dict(tpdo=tp, rpdo=rp, sync=[sid | (0x40000000 if gen else 0), cyc], objs=objs, hb=0, hc=[], mapslots=4)
+    return dict(tpdo=tp, rpdo=rp, sync=[sid | (0x40000000 if gen else 0), cyc], objs=objs, hb=hb, hc=[], mapslots=4)
 
 def observe(it):
     if it[0] == "tx":
